@@ -259,6 +259,21 @@ def gen_c14_cfi(rnd, tier):
             vpos = [list(v) for v in vpos] + [[9, 9, 9], [-7, 3, 5]][: 1 + (k % 2)]
         rnd.shuffle(idx)
         out.append({'m': 'sel', 'op': 'cfi', 'sc': rnd.choice((0, -10, 4)), 'vpos': vpos, 'faces': faces, 'idx': idx})
+    # two-sided sheets: every face twice, once with each winding (same vertex ids, or a separate copy of the vertices at the
+    # same positions) - a selection holding both sides must come back with both
+    for k in range(8 if tier == 'quick' else 80):
+        vpos, faces = _lattice_scene(rnd)
+        nv = len(vpos)
+        if k % 2:
+            back = [[f[0], f[2], f[1]] for f in faces]
+            v2 = [list(v) for v in vpos]
+        else:
+            back = [[f[0] + nv, f[2] + nv, f[1] + nv] for f in faces]
+            v2 = [list(v) for v in vpos] + [list(v) for v in vpos]
+        allf = faces + back
+        idx = list(range(len(allf))) if k % 4 < 2 else [f for f in range(len(allf)) if rnd.random() < 0.7]
+        rnd.shuffle(idx)
+        out.append({'m': 'sel', 'op': 'cfi', 'sc': rnd.choice((0, -3, 4)), 'vpos': v2, 'faces': allf, 'idx': idx})
     return out
 
 
